@@ -1,2 +1,10 @@
 -- Root of the FatVerif library: model, specifications, proofs, property theorems.
-import FatVerif.Model.Util
+import FatVerif.Model.PureMain
+import FatVerif.Model.HistMain
+import FatVerif.Model.Oracles
+import FatVerif.Proofs.Prog
+import FatVerif.Spec.SpecTest
+import FatVerif.Props.SpecSanity
+import FatVerif.Props.C15
+import FatVerif.Props.C16
+import FatVerif.Props.C18
